@@ -598,13 +598,20 @@ func (e *Eval) evalCall(n *ECall) tv {
 		}
 		domK, _, _, _ := mapKeys(a.t)
 		return tv{Sel(Sel(vc.getGlob(e.st, domK, SArrIAB), m), e.leaf(n.Args[1])), nil}
-	case "visited":
+	case "visited", "vidx", "vcount":
+		// ghost state of the k-th range-over-map of the function: visited set, visit order, visit count
 		k := e.leaf(n.Args[0])
 		if e.fr == nil {
-			e.fail("visited outside function")
+			e.fail("%s outside function", n.Fn)
 		}
-		key := fmt.Sprintf("$visited%s_%s_d%d", k.S, sanitize(e.fr.fn.Name()), e.fr.depth)
-		return tv{vc.getGlob(e.st, key, SArrIB), nil}
+		key := fmt.Sprintf("$%s%s_%s_d%d", n.Fn, k.S, sanitize(e.fr.fn.Name()), e.fr.depth)
+		srt := SArrIB
+		if n.Fn == "vidx" {
+			srt = SArrII
+		} else if n.Fn == "vcount" {
+			srt = SInt
+		}
+		return tv{vc.getGlob(e.st, key, srt), nil}
 	case "card":
 		vc.cardAxioms()
 		return tv{app(SInt, "card", e.leaf(n.Args[0])), nil}
